@@ -3,6 +3,8 @@ package c14
 import (
 	"context"
 	"fmt"
+	"net/http"
+	"net/url"
 	"time"
 
 	"go.opentelemetry.io/otel/attribute"
@@ -58,11 +60,11 @@ var (
 	scope    = instrumentation.Scope{Name: "c14/scope", Version: "v1"}
 )
 
-func spans(n int) []sdktrace.ReadOnlySpan {
+func spans(n int, mark string) []sdktrace.ReadOnlySpan {
 	var stubs tracetest.SpanStubs
 	for i := 0; i < n; i++ {
 		stubs = append(stubs, tracetest.SpanStub{
-			Name: fmt.Sprintf("span-%d", i),
+			Name: fmt.Sprintf("%s-span-%d", mark, i),
 			SpanContext: trace.NewSpanContext(trace.SpanContextConfig{
 				TraceID:    trace.TraceID{1, 2, 3, 4, 5, 6, 7, 8, 9, 10, 11, 12, 13, 14, 15, byte(16 + i)},
 				SpanID:     trace.SpanID{1, 2, 3, 4, 5, 6, 7, byte(8 + i)},
@@ -79,12 +81,12 @@ func spans(n int) []sdktrace.ReadOnlySpan {
 	return stubs.Snapshots()
 }
 
-func metrics(n int) *metricdata.ResourceMetrics {
+func metrics(n int, mark string) *metricdata.ResourceMetrics {
 	rm := &metricdata.ResourceMetrics{Resource: res}
 	sm := metricdata.ScopeMetrics{Scope: scope}
 	for i := 0; i < n; i++ {
 		sm.Metrics = append(sm.Metrics, metricdata.Metrics{
-			Name: fmt.Sprintf("c14.counter.%d", i), Description: "scripted", Unit: "1",
+			Name: fmt.Sprintf("%s-counter-%d", mark, i), Description: "scripted", Unit: "1",
 			Data: metricdata.Sum[int64]{
 				Temporality: metricdata.CumulativeTemporality, IsMonotonic: true,
 				DataPoints: []metricdata.DataPoint[int64]{{
@@ -98,13 +100,13 @@ func metrics(n int) *metricdata.ResourceMetrics {
 	return rm
 }
 
-func records(n int) []sdklog.Record {
+func records(n int, mark string) []sdklog.Record {
 	out := make([]sdklog.Record, 0, n)
 	for i := 0; i < n; i++ {
 		f := logtest.RecordFactory{
 			Timestamp: baseTime, ObservedTimestamp: baseTime.Add(time.Millisecond),
 			Severity: log.SeverityInfo, SeverityText: "INFO",
-			Body:                 log.StringValue(fmt.Sprintf("record-%d 0123456789abcdef0123456789abcdef", i)),
+			Body:                 log.StringValue(fmt.Sprintf("%s-record-%d 0123456789abcdef0123456789abcdef", mark, i)),
 			Attributes:           []log.KeyValue{log.Int("i", i)},
 			Resource:             res,
 			InstrumentationScope: &scope,
@@ -116,8 +118,21 @@ func records(n int) []sdklog.Record {
 
 // newHandle builds the named exporter against addr through its public
 // constructor and options only.
-func newHandle(name, addr string, rc retryCfg, timeout time.Duration, gz bool, items int) (handle, error) {
+// handleOpts is everything a case configures on an exporter.
+type handleOpts struct {
+	rc      retryCfg
+	timeout time.Duration // 0 = option not passed
+	gz      bool
+	items   int
+	mark    string            // payload marker (item names start with it)
+	headers map[string]string // WithHeaders, nil = option not passed
+	// proxy (HTTP exporters only): WithProxy, nil = option not passed
+	proxy func(*http.Request) (*url.URL, error)
+}
+
+func newHandle(name, addr string, o handleOpts) (handle, error) {
 	ctx := context.Background()
+	rc, timeout, gz, items := o.rc, o.timeout, o.gz, o.items
 	switch name {
 	case "otlptracehttp":
 		opts := []otlptracehttp.Option{otlptracehttp.WithEndpoint(addr), otlptracehttp.WithInsecure(),
@@ -128,11 +143,17 @@ func newHandle(name, addr string, rc retryCfg, timeout time.Duration, gz bool, i
 		if gz {
 			opts = append(opts, otlptracehttp.WithCompression(otlptracehttp.GzipCompression))
 		}
+		if o.headers != nil {
+			opts = append(opts, otlptracehttp.WithHeaders(o.headers))
+		}
+		if o.proxy != nil {
+			opts = append(opts, otlptracehttp.WithProxy(o.proxy))
+		}
 		e, err := otlptracehttp.New(ctx, opts...)
 		if err != nil {
 			return handle{}, err
 		}
-		ss := spans(items)
+		ss := spans(items, o.mark)
 		return handle{export: func(ctx context.Context) error { return e.ExportSpans(ctx, ss) }, shutdown: e.Shutdown}, nil
 	case "otlptracegrpc":
 		opts := []otlptracegrpc.Option{otlptracegrpc.WithEndpoint(addr), otlptracegrpc.WithInsecure(),
@@ -143,11 +164,14 @@ func newHandle(name, addr string, rc retryCfg, timeout time.Duration, gz bool, i
 		if gz {
 			opts = append(opts, otlptracegrpc.WithCompressor("gzip"))
 		}
+		if o.headers != nil {
+			opts = append(opts, otlptracegrpc.WithHeaders(o.headers))
+		}
 		e, err := otlptracegrpc.New(ctx, opts...)
 		if err != nil {
 			return handle{}, err
 		}
-		ss := spans(items)
+		ss := spans(items, o.mark)
 		return handle{export: func(ctx context.Context) error { return e.ExportSpans(ctx, ss) }, shutdown: e.Shutdown}, nil
 	case "otlpmetrichttp":
 		opts := []otlpmetrichttp.Option{otlpmetrichttp.WithEndpoint(addr), otlpmetrichttp.WithInsecure(),
@@ -158,11 +182,17 @@ func newHandle(name, addr string, rc retryCfg, timeout time.Duration, gz bool, i
 		if gz {
 			opts = append(opts, otlpmetrichttp.WithCompression(otlpmetrichttp.GzipCompression))
 		}
+		if o.headers != nil {
+			opts = append(opts, otlpmetrichttp.WithHeaders(o.headers))
+		}
+		if o.proxy != nil {
+			opts = append(opts, otlpmetrichttp.WithProxy(o.proxy))
+		}
 		e, err := otlpmetrichttp.New(ctx, opts...)
 		if err != nil {
 			return handle{}, err
 		}
-		rm := metrics(items)
+		rm := metrics(items, o.mark)
 		return handle{export: func(ctx context.Context) error { return e.Export(ctx, rm) }, shutdown: e.Shutdown}, nil
 	case "otlpmetricgrpc":
 		opts := []otlpmetricgrpc.Option{otlpmetricgrpc.WithEndpoint(addr), otlpmetricgrpc.WithInsecure(),
@@ -173,11 +203,14 @@ func newHandle(name, addr string, rc retryCfg, timeout time.Duration, gz bool, i
 		if gz {
 			opts = append(opts, otlpmetricgrpc.WithCompressor("gzip"))
 		}
+		if o.headers != nil {
+			opts = append(opts, otlpmetricgrpc.WithHeaders(o.headers))
+		}
 		e, err := otlpmetricgrpc.New(ctx, opts...)
 		if err != nil {
 			return handle{}, err
 		}
-		rm := metrics(items)
+		rm := metrics(items, o.mark)
 		return handle{export: func(ctx context.Context) error { return e.Export(ctx, rm) }, shutdown: e.Shutdown}, nil
 	case "otlploghttp":
 		opts := []otlploghttp.Option{otlploghttp.WithEndpoint(addr), otlploghttp.WithInsecure(),
@@ -188,11 +221,17 @@ func newHandle(name, addr string, rc retryCfg, timeout time.Duration, gz bool, i
 		if gz {
 			opts = append(opts, otlploghttp.WithCompression(otlploghttp.GzipCompression))
 		}
+		if o.headers != nil {
+			opts = append(opts, otlploghttp.WithHeaders(o.headers))
+		}
+		if o.proxy != nil {
+			opts = append(opts, otlploghttp.WithProxy(o.proxy))
+		}
 		e, err := otlploghttp.New(ctx, opts...)
 		if err != nil {
 			return handle{}, err
 		}
-		rs := records(items)
+		rs := records(items, o.mark)
 		return handle{export: func(ctx context.Context) error { return e.Export(ctx, rs) }, shutdown: e.Shutdown}, nil
 	case "otlploggrpc":
 		opts := []otlploggrpc.Option{otlploggrpc.WithEndpoint(addr), otlploggrpc.WithInsecure(),
@@ -203,11 +242,14 @@ func newHandle(name, addr string, rc retryCfg, timeout time.Duration, gz bool, i
 		if gz {
 			opts = append(opts, otlploggrpc.WithCompressor("gzip"))
 		}
+		if o.headers != nil {
+			opts = append(opts, otlploggrpc.WithHeaders(o.headers))
+		}
 		e, err := otlploggrpc.New(ctx, opts...)
 		if err != nil {
 			return handle{}, err
 		}
-		rs := records(items)
+		rs := records(items, o.mark)
 		return handle{export: func(ctx context.Context) error { return e.Export(ctx, rs) }, shutdown: e.Shutdown}, nil
 	}
 	return handle{}, fmt.Errorf("unknown exporter %q", name)
